@@ -110,3 +110,13 @@ pub fn emit_operation<'a, C: ServerContext>(d: &mut OpenApiDoc, path: String, me
 pub fn finish_components<C: ServerContext>(d: &mut OpenApiDoc)
     ensures doc_ops::<C>(*final(d)) == doc_ops::<C>(*old(d))
 { unimplemented!() }
+/// openapiv3::Operation / openapiv3::PathItem: the eight operation slots of a path item (other fields not modelled)
+#[verifier::external_body]
+pub struct Operation { _p: u8 }
+pub struct PathItem {
+    pub get: Option<Operation>, pub put: Option<Operation>, pub post: Option<Operation>, pub delete: Option<Operation>,
+    pub options: Option<Operation>, pub head: Option<Operation>, pub patch: Option<Operation>, pub trace: Option<Operation>,
+}
+/// A11: a str is determined by its characters
+pub axiom fn ax_str_ext(a: &str, b: &str)
+    ensures a@ == b@ ==> a == b;
